@@ -50,7 +50,7 @@ def gen_case(seed, tier, idx):
     n = ro.choice([3, 6, 12, 25, 60, 120] if tier == "quick" else [3, 6, 12, 25, 60, 120, 300])
     ops = bm.gen_ops(ro, cfg, dom, n, MIX)
     # echo phase: re-issue a sample of the earlier queries in shuffled order
-    prev = [o for o in ops if o["op"] == "q"]
+    prev = [o for o in ops if o["op"] in ("q", "point")]
     ro.shuffle(prev)
     for o in prev[:max(2, len(prev) // 3)]:
         e = dict(o)
